@@ -225,6 +225,29 @@ REQUIRED_BOUNDARIES = {
 }
 
 
+# heads / slots sitting exactly on a fork upgrade (first epoch or slot of a fork, last one before it), for every
+# topic whose rule or signature domain depends on the fork
+_FORK_EDGE = {
+    "exit": ["honest-exit@last-pre-deneb-epoch:exit_epoch<fork_epoch",
+             "honest-exit@first-deneb-epoch:exit_epoch>=fork_epoch", "honest-exit@first-deneb-epoch:exit_epoch<fork_epoch",
+             "honest-exit@second-deneb-epoch:exit_epoch>=fork_epoch", "honest-exit@second-deneb-epoch:exit_epoch<fork_epoch",
+             "other-fork-version-exit@last-pre-deneb-epoch:exit_epoch<fork_epoch",
+             "other-fork-version-exit@first-deneb-epoch:exit_epoch>=fork_epoch",
+             "other-fork-version-exit@second-deneb-epoch:exit_epoch>=fork_epoch"],
+    "att": ["slot@first-epoch-of-deneb", "slot@first-epoch-of-bellatrix", "slot@first-epoch-of-altair",
+            "window-end-deneb-rule:edge-in", "window-end-deneb-rule:501ms"],
+    "agg": ["slot@first-epoch-of-deneb", "slot@first-epoch-of-bellatrix", "slot@first-epoch-of-altair",
+            "window-end-deneb-rule:edge-in", "window-end-deneb-rule:501ms"],
+    "block": ["block@first-slot-of-bellatrix", "block@last-slot-before-bellatrix", "block@first-slot-of-deneb",
+              "block@last-slot-before-deneb", "payload-timestamp@first-slot-of-bellatrix",
+              "payload-timestamp@first-slot-of-deneb", "blob-count@first-slot-of-deneb"],
+    "syncmsg": ["slot@first-slot-of-altair", "slot@first-slot-of-deneb", "slot@last-slot-before-deneb"],
+    "contrib": ["slot@first-slot-of-altair", "slot@first-slot-of-deneb", "slot@last-slot-before-deneb"],
+}
+for _t, _l in _FORK_EDGE.items():
+    REQUIRED_BOUNDARIES[_t] = REQUIRED_BOUNDARIES[_t] + _l
+
+
 def boundary_coverage(events):
     out = {}
     for e in events:
@@ -418,7 +441,8 @@ def run_check(pid, tier, seed, replay=None):
 def scen_of(view):
     if view.startswith("p0fork"):
         return "p0fork"
-    for k, v in {"p0early": "p0", "p0lag": "p0", "p0ep2": "p0", "altmid": "alt", "latebel": "late"}.items():
+    for k, v in {"p0early": "p0", "p0lag": "p0", "p0ep2": "p0", "altmid": "alt", "latebel": "late", "late1": "late",
+                 "late3": "late"}.items():
         if view == k:
             return v
     return view
